@@ -696,6 +696,8 @@ class URL:
                               fragment=dest.fragment,
                               username=dest.username or self.username,
                               password=dest.password or self.password)
+        # from_parts() cannot carry the address family of the host
+        ret.family = dest.family if dest.host else self.family
         ret.normalize()
         return ret
 
